@@ -206,6 +206,17 @@ func (sp SiteSpec) matches(s Site, withGuards bool) bool {
 // spec (arguments and guards), and every spec is matched by the required
 // number of sites. Sites of other targets are ignored.
 func (c *Ctx) CheckSites(rule string, fn *ssa.Function, specs []SiteSpec) {
+	c.checkSites(rule, fn, specs, true)
+}
+
+// CheckSitesPresent is CheckSites without the closed-world part: sites of the
+// same targets that no spec describes are ignored (another property's table
+// covers them); every spec must still be matched.
+func (c *Ctx) CheckSitesPresent(rule string, fn *ssa.Function, specs []SiteSpec) {
+	c.checkSites(rule, fn, specs, false)
+}
+
+func (c *Ctx) checkSites(rule string, fn *ssa.Function, specs []SiteSpec, closed bool) {
 	name := FuncName(fn)
 	targets := map[string]bool{}
 	for _, sp := range specs {
@@ -231,6 +242,9 @@ func (c *Ctx) CheckSites(rule string, fn *ssa.Function, specs []SiteSpec) {
 		if matched >= 0 {
 			counts[matched]++
 			c.Ok(rule, key, c.pos(s.Instr), "matches spec: "+specs[matched].Why+"; guards ["+strings.Join(s.Guards, " && ")+"]")
+			continue
+		}
+		if !closed {
 			continue
 		}
 		if argOnly >= 0 {
